@@ -2,7 +2,8 @@
 from props_common import COMMON_NOTE
 
 CONF = dict(
-    families=[('shd', 260, 5000)],
+    families=[('shd', 260, 5000), ('sha', 60, 800)],
+    coq_eval=[dict(family='sha', key='sha', imports='Lib.Sha256', quick=30, thorough=200, fn='sha256')],
     compare=None,
     k_is_property=True,
     gen_obligations=0,
